@@ -44,7 +44,9 @@ import (
 
 // ---------------------------------------------------------------- case structure
 
-type stmt struct{ op, a, b string } // ct ci cv cg dt dv di in bad
+// ct ci cv cg dt dv di in bad, and the statements SQLite accepts whose result Atlas' inspector
+// cannot parse: ctu (b = flavour: "" size | "gen"), ciu
+type stmt struct{ op, a, b string }
 type mstmt struct {
 	m int
 	s stmt
@@ -54,7 +56,7 @@ type mfile struct {
 	stmts []mstmt
 }
 type obj struct {
-	kind, name, tbl string
+	kind, name, tbl string // kind: t i v g; "tu"/"iu" = a table / an index the inspector cannot parse
 	rows            int
 }
 type hidx struct {
@@ -62,9 +64,10 @@ type hidx struct {
 	name string
 }
 type htable struct {
-	m    int
-	name string
-	idx  []hidx
+	m     int
+	name  string
+	idx   []hidx
+	unins bool // a column type SQLite accepts and the inspector cannot parse
 }
 type source struct {
 	kind string // none sql dir hcl
@@ -78,7 +81,9 @@ type tcase struct {
 	cmd     string // validate lint diff sdiff sapply sinspect checkpoint
 	latest  int
 	changes bool
+	excl    bool   // a malformed --exclude pattern ("[") is given (schema inspect/apply/diff)
 	fs, rs  []bool // fault streams: ExecContext calls of the bodies / of the RestoreFuncs (true = fails)
+	qs      []bool // fault stream of the reads of the state inside a session (api stage)
 	start   string // name of the start state
 	db      []obj
 	setup   []string // SQL that creates the start state
@@ -100,7 +105,7 @@ func hx(s string) string {
 
 func (s stmt) tokens() string {
 	switch s.op {
-	case "ci", "cg":
+	case "ci", "cg", "ciu":
 		return s.op + " " + hx(s.a) + " " + hx(s.b)
 	case "bad":
 		return "bad"
@@ -128,10 +133,19 @@ func (s stmt) sql(m int) string {
 		return fmt.Sprintf("DROP INDEX %s %s;", s.a, mk)
 	case "in":
 		return fmt.Sprintf("INSERT INTO %s %s (id, v) VALUES (1, 'x');", s.a, mk)
+	case "ctu":
+		if s.b == "gen" { // setGenExpr's regexp does not know bracket quoting
+			return fmt.Sprintf("CREATE TABLE %s %s (id INTEGER PRIMARY KEY, v TEXT, [g] INT AS (id + 1));", s.a, mk)
+		}
+		return fmt.Sprintf("CREATE TABLE %s %s (id INTEGER PRIMARY KEY, v %s);", s.a, mk, unparsableType) // "parse size"
+	case "ciu": // addIndexes looks for an upper-case WHERE
+		return fmt.Sprintf("CREATE INDEX %s %s ON %s (v) where v > 'a';", s.a, mk, s.b)
 	default:
 		return fmt.Sprintf("CREATE TABL oops %s;", mk)
 	}
 }
+
+const unparsableType = "varchar(99999999999999999999)"
 
 func mstmtsTokens(ss []mstmt) string {
 	var b strings.Builder
@@ -165,7 +179,7 @@ func (s source) tokens() string {
 		var b strings.Builder
 		fmt.Fprintf(&b, "hcl %d", len(s.hcl))
 		for _, t := range s.hcl {
-			fmt.Fprintf(&b, " %d %s %d", t.m, hx(t.name), len(t.idx))
+			fmt.Fprintf(&b, " %d %s %d %d", t.m, hx(t.name), b01(t.unins), len(t.idx))
 			for _, i := range t.idx {
 				fmt.Fprintf(&b, " %d %s", i.m, hx(i.name))
 			}
@@ -196,9 +210,9 @@ func b01(b bool) int {
 
 func (c *tcase) line() string {
 	var b strings.Builder
-	fmt.Fprintf(&b, "%s %s %d %d %s %s %d", c.norm, c.cmd, c.latest, b01(c.changes), bitsTokens(c.fs), bitsTokens(c.rs), len(c.db))
+	fmt.Fprintf(&b, "%s %s %d %d %d %s %s %s %d", c.norm, c.cmd, c.latest, b01(c.changes), b01(c.excl), bitsTokens(c.fs), bitsTokens(c.qs), bitsTokens(c.rs), len(c.db))
 	for _, o := range c.db {
-		fmt.Fprintf(&b, " %s %s %s %d", o.kind, hx(o.name), hx(o.tbl), o.rows)
+		fmt.Fprintf(&b, " %s %s %s %d %d", o.kind[:1], hx(o.name), hx(o.tbl), o.rows, b01(len(o.kind) == 1))
 	}
 	fmt.Fprintf(&b, " %s %s %s", dirTokens(c.dir), c.from.tokens(), c.to.tokens())
 	return b.String()
@@ -313,6 +327,16 @@ func buildStarts() []startState {
 		{name: "hidden-wasm-upper", db: []obj{{"t", strings.ToUpper(wasm), strings.ToUpper(wasm), 0}}, setup: []string{"CREATE TABLE " + strings.ToUpper(wasm) + " " + tblCols}},
 		{name: "hidden-wasm-longer", db: []obj{{"t", wasm + "x", wasm + "x", 1}}, setup: append([]string{"CREATE TABLE " + wasm + "x " + tblCols}, rowsSQL(wasm+"x", 1)...)},
 		{name: "virtual-fts", db: []obj{{"t", "ft9", "ft9", 1}}, setup: []string{"CREATE VIRTUAL TABLE ft9 USING fts4(body)", "INSERT INTO ft9 (body) VALUES ('row1')"}},
+		// user databases Snapshot's own InspectRealm cannot read (it fails before the verdict) ...
+		{name: "unread-table", db: []obj{{"tu", "t9", "t9", 1}},
+			setup: append([]string{"CREATE TABLE t9 (id INTEGER PRIMARY KEY, v " + unparsableType + ")"}, rowsSQL("t9", 1)...)},
+		{name: "unread-index", db: []obj{{"t", "t9", "t9", 0}, {"iu", "i9", "t9", 0}},
+			setup: []string{"CREATE TABLE t9 " + tblCols, "CREATE INDEX i9 ON t9 (v) where v > 'a'"}},
+		{name: "unread-gen-view", db: []obj{{"tu", "t9", "t9", 0}, {"v", "v9", "v9", 0}},
+			setup: []string{"CREATE TABLE t9 (id INTEGER PRIMARY KEY, v TEXT, [g] INT AS (id + 1))", "CREATE VIEW v9 AS SELECT 1 AS x"}},
+		// ... and one whose unparsable table the inspection never looks at (hidden name): refused as "not clean"
+		{name: "unread-hidden", db: []obj{{"tu", "sqlitedb", "sqlitedb", 0}},
+			setup: []string{"CREATE TABLE sqlitedb (id INTEGER PRIMARY KEY, v " + unparsableType + ")"}},
 	}
 	// every feature singly and every pair of features (exhaustive)
 	fe := "TIVGXHR"
@@ -342,11 +366,28 @@ func sqliteOpen(path string, ro bool) (*sql.DB, error) {
 	return sql.Open("sqlite3", dsn)
 }
 
+// startFiles caches the bytes of the start database per start state (the set-up SQL of a
+// start state is fixed, so the file is built once and copied afterwards).
+var startFiles sync.Map
+
 // createStart writes the start database file (nothing for "absent").
 func createStart(path string, c *tcase) error {
 	if c.start == "absent" {
 		return nil
 	}
+	if b, ok := startFiles.Load(c.start); ok {
+		return os.WriteFile(path, b.([]byte), 0o644)
+	}
+	if err := buildStart(path, c); err != nil {
+		return err
+	}
+	if b, err := os.ReadFile(path); err == nil {
+		startFiles.Store(c.start, b)
+	}
+	return nil
+}
+
+func buildStart(path string, c *tcase) error {
 	db, err := sqliteOpen(path, false)
 	if err != nil {
 		return err
@@ -568,27 +609,33 @@ func writeSource(root, name string, s source) (string, error) {
 // ---------------------------------------------------------------- running one CLI case
 
 type result struct {
-	obs       string
-	outcome   string
-	same      bool
-	empty     bool
-	dirw      bool
-	bytesSame bool
-	startObjs int // sqlite_master rows before
-	startUser int // ... that are not engine bookkeeping
-	exit      int
-	dirDiff   string
-	output    string
-	corrupt   string
-	err       error
-	bodyCalls int // api stage: ExecContext calls of bodies / of RestoreFuncs seen
-	restCalls int
+	obs             string
+	outcome         string
+	same            bool
+	empty           bool
+	dirw            bool
+	bytesSame       bool
+	startObjs       int // sqlite_master rows before
+	startUser       int // ... that are not engine bookkeeping
+	exit            int
+	dirDiff         string
+	output          string
+	corrupt         string
+	err             error
+	bodyCalls       int // api stage: ExecContext calls of bodies / of RestoreFuncs seen
+	restCalls       int
+	readCalls       int  // api stage: reads of the state inside a session seen
+	restoreReported bool // api stage: the returned error carries the injected restore failure
 }
 
 var (
-	markerRe   = regexp.MustCompile(`/\*m(\d+)\*/`)
-	notCleanRe = regexp.MustCompile(`connected database is not clean`)
-	readonlyRe = regexp.MustCompile(`attempt to write a readonly database`)
+	markerRe = regexp.MustCompile(`/\*m(\d+)\*/`)
+	// the errors of Atlas' inspection (sql/sqlite/inspect.go, convert.go; schema.ExcludeRealm/ExcludeSchema)
+	// on objects SQLite accepted: no statement failed, the read of the state did
+	inspectErrRe = regexp.MustCompile(`parse size "|missing partial WHERE clause in|generation expression for column "|syntax error in pattern`)
+	snapshotRe   = regexp.MustCompile(`taking database snapshot`)
+	notCleanRe   = regexp.MustCompile(`connected database is not clean`)
+	readonlyRe   = regexp.MustCompile(`attempt to write a readonly database`)
 )
 
 type lintReport struct {
@@ -601,6 +648,13 @@ var fileRe = regexp.MustCompile(`^(\d+)_f\d+\.sql$`)
 func classify(c *tcase, exit int, output string) string {
 	if notCleanRe.MatchString(output) {
 		return "refused"
+	}
+	if exit != 0 && inspectErrRe.MatchString(output) {
+		// (checked before the markers: the inspector quotes the CREATE statement, comment included)
+		if snapshotRe.MatchString(output) {
+			return "snapfail" // Snapshot's own InspectRealm: nothing was written yet
+		}
+		return "ifail"
 	}
 	var rep lintReport
 	// (a lint run whose restore fails too ends with a plain error instead of the report)
@@ -722,6 +776,9 @@ func runCLI(c *tcase, bin, tmpRoot string) (r result) {
 	case "sinspect":
 		args = []string{"schema", "inspect", "--url", fromURL, "--dev-url", devURL}
 	}
+	if c.excl {
+		args = append(args, "--exclude", "[")
+	}
 	if c.via == "env" {
 		// the same command configured by a project file instead of flags
 		var b strings.Builder
@@ -819,7 +876,7 @@ func noSession(c *tcase) bool {
 }
 
 func oracle(w *out.W, c *tcase, r *result) {
-	ctxt := fmt.Sprintf("start=%s cmd=%s via=%s ro=%v latest=%d from=%s to=%s exit=%d outcome=%s", c.start, c.cmd, c.via, c.ro, c.latest, c.from.kind, c.to.kind, r.exit, r.outcome)
+	ctxt := fmt.Sprintf("start=%s cmd=%s via=%s ro=%v latest=%d from=%s to=%s excl=%v exit=%d outcome=%s label=%s", c.start, c.cmd, c.via, c.ro, c.latest, c.from.kind, c.to.kind, c.excl, r.exit, r.outcome, c.label)
 	if r.corrupt != "" {
 		w.Violation(c.id, "dev-unreadable-after", ctxt+": the dev database file cannot be read after the command: "+r.corrupt)
 		return
@@ -833,7 +890,7 @@ func oracle(w *out.W, c *tcase, r *result) {
 		// contains something: refused, and then completely untouched
 		if !r.same || !r.bytesSame {
 			w.Violation(c.id, "nonempty-dev-damaged", ctxt+fmt.Sprintf(": the dev database held %d object(s) and was modified (logical dump equal=%v, bytes equal=%v, empty afterwards=%v)", r.startUser, r.same, r.bytesSame, r.empty))
-		} else if r.outcome != "refused" && !noSession(c) {
+		} else if r.outcome != "refused" && r.outcome != "snapfail" && !noSession(c) {
 			w.Violation(c.id, "nonempty-dev-not-refused", ctxt+": the dev database was not empty and the command did not refuse it")
 		}
 	case restoreFault:
@@ -842,7 +899,12 @@ func oracle(w *out.W, c *tcase, r *result) {
 		if c.ro && !(r.same && r.bytesSame) {
 			w.Violation(c.id, "readonly-dev-modified", ctxt+": read-only connection, yet the dev database file changed")
 		}
-	case r.outcome == "refused":
+		// decision C14_restore_always_runs: a database left dirty because the restore failed is
+		// *reported* -- whatever else failed before (api stage; NormalizeSchema is known to drop it)
+		if !c.ro && c.norm != "s" && !r.empty && !(r.same && r.bytesSame) && !r.restoreReported {
+			w.Violation(c.id, "dirty-dev-not-reported", ctxt+": a statement of the restore failed, the dev database is left with content and the error returned does not mention the restore")
+		}
+	case r.outcome == "refused" || r.outcome == "snapfail":
 		// nothing but engine bookkeeping (what `schema clean` leaves behind): Atlas must not refuse it
 		w.Violation(c.id, "clean-dev-refused", ctxt+fmt.Sprintf(": the dev database held no user object (%d bookkeeping row(s)) and was refused", r.startObjs))
 	case !r.empty && !(r.same && r.bytesSame):
@@ -1126,6 +1188,85 @@ func genCLI(tier string) []*tcase {
 		c.ro, c.fs, c.rs = true, allTrue(8), allTrue(8)
 		add(c, "readonly/empty-dir")
 	}
+	// 7. the exit "every statement succeeded, the read of the state afterwards failed": every
+	//    command x every position of every script holds a statement whose result the inspector
+	//    cannot parse -- (a) the statement itself in its unparsable form (CREATE TABLE -> unparsable
+	//    column / bracket-quoted generated column, CREATE INDEX -> lower-case where), (b) a fresh
+	//    unparsable table in its place (what follows may fail: tells a read after every statement
+	//    (DevLoader.nextStmts) from one read at the end (Replay, DevLoader.base/first)),
+	//    (c) a fresh unparsable table that the next statement drops again; clean and
+	//    bookkeeping-only starts in turn
+	okStarts := []startState{startByName("absent"), startByName("empty"), startByName("bk-seq"), startByName("bk-seq-stat"), startByName("bk-wasm-idx")}
+	flavours := []string{"", "gen"}
+	for _, v := range variants {
+		probe := build(v, starts[0])
+		for si := range probe.scripts() {
+			for k := 0; k < len(*probe.scripts()[si]); k++ {
+				// (thorough: every form with both spellings of the unparsable table and two starts)
+				reps := 1
+				if thorough {
+					reps = 4
+				}
+				for form := 0; form < 3*reps; form++ {
+					st := okStarts[n%len(okStarts)]
+					n++
+					c := build(v, st)
+					sc := c.scripts()[si]
+					old := (*sc)[k].s
+					switch form % 3 {
+					case 0:
+						switch old.op {
+						case "ct":
+							(*sc)[k].s = stmt{"ctu", old.a, flavours[n%2]}
+						case "ci":
+							(*sc)[k].s = stmt{"ciu", old.a, old.b}
+						default:
+							continue
+						}
+					case 1:
+						(*sc)[k].s = stmt{"ctu", "uu", flavours[n%2]}
+					case 2:
+						if k+1 >= len(*sc) {
+							continue
+						}
+						(*sc)[k].s = stmt{"ctu", "uu", flavours[n%2]}
+						(*sc)[k+1].s = stmt{"dt", "uu", ""}
+					}
+					add(c, "inspect/"+v.name)
+				}
+			}
+		}
+	}
+	// 8. a malformed --exclude pattern (schema inspect/apply/diff with SQL sources): the replay
+	//    succeeds, the read fails iff there is a table to match the pattern against
+	for _, v := range variants {
+		if !(v.cmd == "sdiff" || v.cmd == "sapply" || v.cmd == "sinspect") || v.from == "hcl" || v.to == "hcl" || v.from == "url" || v.to == "url" {
+			continue
+		}
+		for _, sn := range []string{"absent", "empty", "bk-seq", "bk-seq-stat", "bk-wasm-idx", "tables", "combo-V", "unread-table", "unread-hidden"} {
+			c := build(v, startByName(sn))
+			c.excl = true
+			add(c, "exclude/"+v.name)
+		}
+		// a statement fails before the read is reached; only views are created (nothing to match)
+		for form := 0; form < 3; form++ {
+			c := build(v, okStarts[n%len(okStarts)])
+			n++
+			c.excl = true
+			sc := c.scripts()[0]
+			switch form {
+			case 0:
+				(*sc)[len(*sc)-1].s = stmt{"bad", "", ""}
+			case 1:
+				for k := range *sc {
+					(*sc)[k].s = stmt{"cv", fmt.Sprintf("w%d", k), ""}
+				}
+			case 2:
+				(*sc)[0].s = stmt{"ctu", (*sc)[0].s.a, ""}
+			}
+			add(c, "exclude/"+v.name)
+		}
+	}
 	// 6. seeded random directories / sources
 	r := rng.FromEnv(0xC14)
 	nr := 120
@@ -1134,7 +1275,11 @@ func genCLI(tier string) []*tcase {
 	}
 	tables := []string{"t0", "t1", "t2"}
 	randStmt := func() stmt {
-		switch r.Intn(12) {
+		switch r.Intn(14) {
+		case 12:
+			return stmt{"ctu", rng.Pick(r, tables), rng.Pick(r, flavours)}
+		case 13:
+			return stmt{"ciu", rng.Pick(r, []string{"i0", "i1"}), rng.Pick(r, tables)}
 		case 0, 1, 2:
 			return stmt{"ct", rng.Pick(r, tables), ""}
 		case 3, 4:
@@ -1176,6 +1321,9 @@ func genCLI(tier string) []*tcase {
 		}
 		m := 0
 		c := (&tcase{norm: "0", cmd: v.cmd, changes: true, via: v.via}).setStart(st)
+		if (v.cmd == "sdiff" || v.cmd == "sapply" || v.cmd == "sinspect") && v.from != "hcl" && v.to != "hcl" && v.from != "url" && v.to != "url" {
+			c.excl = r.Chance(1, 5)
+		}
 		if v.cmd != "sdiff" && v.cmd != "sapply" && v.cmd != "sinspect" {
 			nf := 1 + r.Intn(5)
 			for f := 0; f < nf; f++ {
@@ -1225,9 +1373,17 @@ func main() {
 	}
 	w := out.New(*outDir)
 	defer w.Close()
+	// the dev database files live in a memory file system when there is one (every statement of
+	// the thousands of sessions is its own fsync'ed transaction otherwise); TMPDIR overrides
 	tmpRoot := os.Getenv("TMPDIR")
 	if tmpRoot == "" {
 		tmpRoot = os.TempDir()
+		if fi, err := os.Stat("/dev/shm"); err == nil && fi.IsDir() {
+			if d, err := os.MkdirTemp("/dev/shm", "verif-c14-"); err == nil {
+				tmpRoot = d
+				defer os.RemoveAll(d)
+			}
+		}
 	}
 	var (
 		cases   []*tcase
@@ -1249,7 +1405,7 @@ func main() {
 		fmt.Fprintln(os.Stderr, "unknown mode")
 		os.Exit(2)
 	}
-	w.Rule = "non-trivial = the case is refused, or a statement or a restore fails in some session, or a session runs with a restore in mid-body (lint checkpoint), or the directory is written; key = case line"
+	w.Rule = "non-trivial = the case is refused, or a statement, a restore or a read of the state (Snapshot's included) fails in some session, or a session runs with a restore in mid-body (lint checkpoint), or the directory is written; key = case line"
 	w.Exhaust = true
 	bad := 0
 	for i, c := range cases {
@@ -1290,6 +1446,9 @@ func main() {
 	}
 	if bad > 0 {
 		w.Close()
+		if strings.HasPrefix(tmpRoot, "/dev/shm/verif-c14-") {
+			os.RemoveAll(tmpRoot)
+		}
 		os.Exit(1)
 	}
 }
